@@ -47,8 +47,10 @@ def run_case(case):
     mon = Mon()
     srcs = [event.Source(trigger=t, path=(f"s{i}",)) for i, t in enumerate(case["triggers"])]
     emap = event.EventMap()
-    for s in srcs:
+    for k_, s in enumerate(srcs):
         emap.add(s)
+        if rng.random() < 0.2:
+            emap.add(rng.choice(srcs[:k_ + 1]))      # adding a source again must change nothing (bit k = k-th first add)
     from vmon.simkit import decoy
 
     def twin():
@@ -59,6 +61,15 @@ def run_case(case):
 
     decoy(rng, twin)
     dut = EventMonitor(emap, trigger=case["mon_trigger"], data_width=dw, alignment=case["al"])
+    from vmon.simkit import decoy_after
+
+    def other_monitor():
+        em3 = event.EventMap()
+        for i in range(n + 3):
+            em3.add(event.Source(trigger="level", path=(f"o{i}",)))
+        return EventMonitor(em3, trigger="level", data_width=8 if dw != 8 else 16, alignment=(case["al"] + 1) % 3)
+
+    other = decoy_after(rng, other_monitor)
     summary = {k: case[k] for k in ("n", "dw", "al", "attach")}
     summary["stim"] = case["stim_seed"]
     subs = {"evmon": dut}
